@@ -221,10 +221,12 @@ func main() {
 					bgmain.Used <- bondgo.UsageNotify{bondgo.TR_PROC, procid, bondgo.C_ROMSIZE, bondgo.S_NIL, linesn}
 				}
 
+				bondgo.VerifYield("main-tr-exit")
 				bgmain.Used <- bondgo.UsageNotify{bondgo.TR_EXIT, 0, 0, bondgo.S_NIL, bondgo.I_NIL}
 				<-usagedone
 
 				gent, _ := bondgo.Type_from_string(bgmain.Basic_type)
+				bondgo.VerifYield("main-req-exit")
 				bgmain.Reqs <- bondgo.VarReq{bondgo.REQ_EXIT, 0, bondgo.VarCell{gent, 0, 0, 0, 0, 0, 0, 0}}
 				<-assignerdone
 			}
